@@ -758,6 +758,13 @@ func TestListenerSpecs(t *testing.T) {
 		{"data~tcp://127.0.0.1:1~~", "?", false},
 		{"data~://", "", false},
 		{"{\"name\":\"data\",\"address\":\"tcp://127.0.0.1:1\"}", "?", false},
+		// a JSON object is no documented listener form: rejected, or - if a version accepts it - a real listener
+		{"{\"name\":\"data\",\"address\":\"unix://c18-json.sock\"}", "?", false},
+		{"{\"name\":\"data\",\"address\":\"stdin://\"}", "?", false},
+		{"{\"name\":\"data\",\"address\":22}", "", false},
+		{"{\"name\":\"data\",\"address\":null}", "", false},
+		{"{\"name\":\"data\"}", "", false},
+		{"{}", "", false},
 	}
 	for _, c := range cases {
 		for _, form := range []string{"cli", "yaml"} {
@@ -778,6 +785,8 @@ func TestListenerSpecs(t *testing.T) {
 				obs = fmt.Sprintf("listeners:%d", len(p.Client.ListenList))
 			default:
 				switch l := p.Client.ListenList[0].(type) {
+				case nil:
+					obs = "nil-listener"
 				case *listener.SocketListener:
 					obs = "socket-" + l.Address.Scheme
 					if (l.Forward != nil) != c.Fwd {
@@ -797,6 +806,8 @@ func TestListenerSpecs(t *testing.T) {
 			switch {
 			case obs == "panic":
 				report(t, sig+"-panic", desc, "parser panicked: "+p.Panic)
+			case obs == "nil-listener":
+				report(t, sig+"-accepted-without-listener", desc, fmt.Sprintf("listener %q is accepted without error but no listener is constructed (the client then fails at start-up)", c.Spec))
 			case c.Want == "?":
 			case c.Want == "" && obs != "parse-error":
 				report(t, sig+"-accepts-malformed", desc, fmt.Sprintf("malformed listener %q accepted as %s", c.Spec, obs))
